@@ -19,6 +19,8 @@ def engine_parts(cancel=False, rendezvous=False, cli=True):
          "shards": {Q: 8, T: 16}, "timeout": {Q: 400, T: 2400}},
         {"name": "random", "test": "TestRandom", "checks": {Q: 4000, T: 120000}, "shards": {Q: 8, T: 16},
          "timeout": {Q: 400, T: 2400}, "shrinktime": "25s"},
+        {"name": "wide", "test": "TestWide", "checks": {Q: 800, T: 16000}, "shards": {Q: 8, T: 16},
+         "timeout": {Q: 400, T: 2400}, "shrinktime": "25s"},
     ]
     if cancel:
         parts.append({"name": "cancel", "test": "TestCancel", "checks": {Q: 1600, T: 40000}, "shards": {Q: 4, T: 16},
@@ -111,7 +113,7 @@ PROPS = {
                 "Oracle: Kahn's algorithm. Non-trivial = at least 3 edges and a declaration order that is not a "
                 "topological order; distinct = canonical JSON of (n, edges, order).",
         "assumptions": ["depends_on names only declared stages (dangling names belong to C18)",
-                        "edges are compared as sets (a name listed twice in depends_on is not generated)"],
+                        "edges are compared as sets (a name listed twice in depends_on means the same as listing it once)"],
         "parts": [
             {"name": "exhaustive", "test": "TestExhaustive", "kind": "plain", "n": {Q: 4, T: 4},
              "shards": {Q: 6, T: 8}, "timeout": {Q: 300, T: 900}},
@@ -206,7 +208,7 @@ PROPS = {
         ],
     },
     "C19": {
-        "pkg": "c19", "bin": False,
+        "pkg": "c19", "bin": True,
         "technique": "rapid byte-stream/chunking generator against a normal-form (round-trip) oracle with a recording sink; "
                      "differential across the three formats in one fresh child process per format",
         "level_text": "streams: 1..8 concurrent tasks, generated streams (lines 0..10000 bytes, LF/CRLF/bare CR, unterminated tail, CSI "
@@ -228,6 +230,7 @@ PROPS = {
             {"name": "matrix", "test": "TestFormatsMatrix", "kind": "plain", "shards": {Q: 6, T: 6}, "timeout": {Q: 400, T: 900}},
             {"name": "frames", "test": "TestCockpitFrames", "checks": {Q: 32, T: 640}, "shards": {Q: 8, T: 16}, "timeout": {Q: 400, T: 2400}, "shrinktime": "40s"},
             {"name": "formats", "test": "TestFormats", "checks": {Q: 48, T: 1600}, "shards": {Q: 8, T: 16}, "timeout": {Q: 400, T: 2400}, "shrinktime": "40s"},
+            {"name": "startup", "test": "TestCockpitStartup", "kind": "plain", "n": {Q: 300, T: 5000}, "shards": {Q: 16, T: 16}, "timeout": {Q: 900, T: 3000}},
         ],
     },
     "C10": {
@@ -331,6 +334,7 @@ PROPS = {
         "parts": [
             {"name": "api", "test": "TestAPI", "checks": {Q: 2400, T: 60000}, "shards": {Q: 8, T: 16}, "timeout": {Q: 400, T: 2400}},
             {"name": "cli", "test": "TestCLI", "checks": {Q: 240, T: 6000}, "shards": {Q: 8, T: 16}, "timeout": {Q: 400, T: 2400}},
+            {"name": "watch", "test": "TestWatch", "kind": "plain", "shards": {Q: 6, T: 6}, "timeout": {Q: 400, T: 900}},
         ],
     },
     "C15": {
